@@ -34,6 +34,12 @@ pub fn clip(mem: usize) -> u64 {
 }
 
 pub fn file_rows_raw(out: &str, n: usize, delim: &str, header: bool, evs: &mut Vec<Value>) {
+    file_rows_raw_e(out, n, delim, header, evs, &[])
+}
+
+/// `empty[i]` = record i has no bases: its row is all zero and cannot carry an ordinal; an all-zero row at position i is
+/// decoded as record i exactly when record i is such a record
+pub fn file_rows_raw_e(out: &str, n: usize, delim: &str, header: bool, evs: &mut Vec<Value>, empty: &[bool]) {
     let data = std::fs::read(out).unwrap_or_default();
     let nul = data.iter().filter(|&&b| b == 0).count();
     let text = String::from_utf8_lossy(&data).to_string();
@@ -45,7 +51,8 @@ pub fn file_rows_raw(out: &str, n: usize, delim: &str, header: bool, evs: &mut V
     let _ = n;
     for (i, l) in lines.iter().skip(if header { 1 } else { 0 }).enumerate() {
         let first = l.split(delim).next().unwrap_or("");
-        let rec = parse_val(first, false).map(|c| c - 1).unwrap_or(-1);
+        let allzero = l.split(delim).all(|t| t == "0");
+        let rec = if allzero { if empty.get(i).copied().unwrap_or(false) { i as i64 } else { -1 } } else { parse_val(first, false).map(|c| c - 1).unwrap_or(-1) };
         evs.push(json!({"ev":"row","i":i,"rec":rec}));
     }
 }
@@ -57,7 +64,16 @@ pub fn oligo_batch(seed: u64, runs: usize, dir: &str, maxn: usize) {
         // every fifth run is one large batch on many threads (parallel conversion of hundreds of records in one flush)
         let big = i % 5 == 2;
         let n = if i % 6 == 0 { rng.below(3) as usize + 1 } else if big { rng.range(300, 700) as usize } else { rng.range(1, maxn as u64) as usize };
-        let seqs = coded_raw_records(n, &mut rng);
+        let mut seqs = coded_raw_records(n, &mut rng);
+        // records without bases: somewhere in the middle and, in some runs, as the last records of the file (so that the final
+        // batch may hold nothing but such records)
+        let mut n = n;
+        if i % 3 == 1 {
+            for _ in 0..(1 + rng.below(2)) {
+                seqs.push(Vec::new());
+                n += 1;
+            }
+        }
         let inp = format!("{}/ob_in.fa", dir);
         let out = format!("{}/ob_out.txt", dir);
         write_fasta(&inp, &seqs);
@@ -78,7 +94,10 @@ pub fn oligo_batch(seed: u64, runs: usize, dir: &str, maxn: usize) {
         }
         let mut evs = Vec::new();
         match res {
-            Ok(Ok(())) => file_rows_raw(&out, n, delim, header, &mut evs),
+            Ok(Ok(())) => {
+                let empty: Vec<bool> = seqs.iter().map(|q| q.is_empty()).collect();
+                file_rows_raw_e(&out, n, delim, header, &mut evs, &empty)
+            }
             Ok(Err(e)) => evs.push(json!({"ev":"error","what":e})),
             Err(_) => evs.push(json!({"ev":"crash","kind":"panic"})),
         }
